@@ -25,6 +25,7 @@ ROOT = os.path.dirname(os.path.dirname(os.path.abspath(__file__)))
 EVIDENCE_DIR = os.path.join(ROOT, "evidence")
 REPLAY_DIR = os.environ.get("BIOSIM_REPLAY_DIR") or os.path.join(ROOT, "replays")
 KNOWN = os.path.join(ROOT, "known_findings.json")
+FAULT_DIR = "/tmp/biosim-faults"  # faulthandler dumps of crashed workers (diagnosis only)
 
 PROPS = ["C01", "C03", "C04", "C05", "C06", "C08", "C12", "C13", "C14", "C15", "C16", "C19", "C20"]
 
@@ -69,7 +70,8 @@ def worker_init():
         os.dup2(devnull, 2)
     except OSError:
         pass
-    faulthandler.enable(file=open(os.path.join("/tmp", f"biosim-fault-{os.getpid()}.log"), "w"))
+    os.makedirs(FAULT_DIR, exist_ok=True)
+    faulthandler.enable(file=open(os.path.join(FAULT_DIR, f"{os.getpid()}.log"), "w"))
 
 
 def run_one(prop, run_seed, tier, scenario=None):
@@ -118,6 +120,16 @@ def minimize_task(prop, trace, sig):
 
 def worker_quiet():
     pass
+
+
+def _clean_fault_logs():
+    try:
+        for f in os.listdir(FAULT_DIR):
+            p = os.path.join(FAULT_DIR, f)
+            if os.path.getsize(p) == 0:
+                os.unlink(p)
+    except OSError:
+        pass
 
 
 # ------------------------------------------------------------ known findings
@@ -246,6 +258,7 @@ def batch(prop, tier, batch_seed, runs=None, wall=None, workers=None, write_evid
                     pass
         ex.shutdown(wait=not harness_errors, cancel_futures=True)
 
+    _clean_fault_logs()
     results.sort(key=lambda r: r["run_seed"])
     for r in results:
         if r.get("harness_error"):
